@@ -10,12 +10,13 @@ def gen(rng: random.Random, tier: str):
     for _ in range(n):
         nu, ni = rng.randint(1, 6), rng.randint(1, 6)
         dens = rng.choice([0.3, 0.6, 0.9])
-        rows = [[100 + u, 1000 + i, rng.choice([0.5, 1, 1.5, 2, 2.5, 3, 3.5, 4, 4.5, 5]), rng.randint(0, 100)]
+        UB, IB = rng.choice([(100, 1000), (100, 1000), (0, 1000), (0, 0)])          # zero-based identifiers are identifiers like any other
+        rows = [[UB + u, IB + i, rng.choice([0.5, 1, 1.5, 2, 2.5, 3, 3.5, 4, 4.5, 5]), rng.randint(0, 100)]
                 for u in range(nu) for i in range(ni) if rng.random() < dens]
         if not rows: continue
         rng.shuffle(rows)
         yield {"rows": rows, "damp_user": rng.choice([0, 0, 1, 2.5, 5]), "damp_item": rng.choice([0, 0, 1, 2.5, 10]),
-               "hist": [[rng.choice([1000 + i for i in range(ni)] + [7777]), float(rng.randint(1, 5))] for _ in range(rng.randint(0, 3))],
+               "hist": [[rng.choice([IB + i for i in range(ni)] + [7777]), float(rng.randint(1, 5))] for _ in range(rng.randint(0, 3))],
                "cutoff": rng.randint(0, 100), "dt_times": rng.random() < 0.6, "dt_unit": rng.choice(["ns", "us", "ms", "s", "ns-utc"]), "const": rng.random() < 0.1}
 
 def _close(a, b, tol): return abs(a - b) <= tol * max(1.0, abs(a), abs(b))
